@@ -834,25 +834,10 @@ pub(crate) fn any_devices(c: &mut ZXController<VHost>) -> Cfg {
     Cfg { kemp_on, mouse_on, ext, kemp_state, mouse, ext_answer }
 }
 
-// @harness
-// @prop C07 C09
-// @tier quick
-// @timeout 900
-// @fn ZXController::write_io; ZXController::set_border_color; ZXController::write_7ffd; ZXController::write_ay_port; ZXController::select_ay_reg; IoExtender dispatch
-// @sym machine, latch, frame time, 16-bit port, data, Kempston joystick/mouse present or not with arbitrary state, extender present or not claiming (port & mask) == val for symbolic mask/val, keyboard matrices
-// @assert for every port selecting at most one device: an even port sets the border to data&7 and nothing else; a 128K paging port updates the latch per C06 and nothing else; an extender port reaches the extender exactly once with (port, data) and nothing else; ports of read-only or absent devices change nothing
-// @assume the port selects at most one built-in device (statement: "selects exactly one device"); when the extender also claims it only the extender side is asserted (statement: the extender "receives exactly the ports it claims")
-// @bound one port write per query; AY register effects are in c07_ay_ports (feature ay)
-// @stub ZXScreen::process_clocks -> no-op
-// @replay solver-only
-#[kani::proof]
-#[kani::unwind(10)]
-#[kani::stub(crate::zx::video::screen::ZXScreen::process_clocks, noop_screen_clocks)]
-fn c07_write_reaches_one_device() {
+fn write_decode_body(m: ZXMachine) {
     let kemp: bool = kani::any();
     let mouse: bool = kani::any();
-    let (mut c, latch, _t) = any_controller_at(kemp, mouse);
-    let m = c.machine;
+    let (mut c, latch, _t) = controller_at_machine(m, kemp, mouse);
     let cfg = any_devices(&mut c);
     let port: u16 = kani::any();
     let data: u8 = kani::any();
@@ -890,9 +875,45 @@ fn c07_write_reaches_one_device() {
     }
     kani::cover!(sel.ext && sel.count() == 0, "extender claims a port no built-in device decodes");
     kani::cover!(sel.ext && sel.ula, "extender claims an even port");
-    kani::cover!(sel.page && !sel.ext && want_latch.val != latch.val, "paging write");
+    kani::cover!(m == ZXMachine::Sinclair48K || (sel.page && !sel.ext && want_latch.val != latch.val), "paging write");
     kani::cover!(sel.ula && !sel.ext && border1 != border0, "border write");
     kani::cover!(sel.count() == 0 && !sel.ext, "no device");
+}
+
+// @harness
+// @prop C07 C09
+// @tier quick
+// @timeout 900
+// @fn ZXController::write_io; ZXController::set_border_color; ZXController::write_7ffd; ZXController::write_ay_port; ZXController::select_ay_reg; IoExtender dispatch
+// @sym 48K machine (literal), latch, frame time, 16-bit port, data, Kempston joystick/mouse present or not with arbitrary state, extender present or not claiming (port & mask) == val for symbolic mask/val, keyboard matrices
+// @assert for every port selecting at most one device: an even port sets the border to data&7 and nothing else; a 128K paging port updates the latch per C06 and nothing else; an extender port reaches the extender exactly once with (port, data) and nothing else; ports of read-only or absent devices change nothing
+// @assume the port selects at most one built-in device (statement: "selects exactly one device"); when the extender also claims it only the extender side is asserted (statement: the extender "receives exactly the ports it claims")
+// @bound one port write per query; AY register effects are in c07_ay_ports (feature ay)
+// @stub ZXScreen::process_clocks -> no-op
+// @replay solver-only
+#[kani::proof]
+#[kani::unwind(10)]
+#[kani::stub(crate::zx::video::screen::ZXScreen::process_clocks, noop_screen_clocks)]
+fn c07_write_reaches_one_device_48k() {
+    write_decode_body(ZXMachine::Sinclair48K);
+}
+
+// @harness
+// @prop C07
+// @tier quick
+// @timeout 900
+// @fn ZXController::write_io; ZXController::set_border_color; ZXController::write_7ffd; ZXController::write_ay_port; ZXController::select_ay_reg; IoExtender dispatch
+// @sym 128K machine (literal), latch, frame time, 16-bit port, data, Kempston joystick/mouse present or not with arbitrary state, extender present or not claiming (port & mask) == val for symbolic mask/val, keyboard matrices
+// @assert for every port selecting at most one device: an even port sets the border to data&7 and nothing else; a 128K paging port updates the latch per C06 and nothing else; an extender port reaches the extender exactly once with (port, data) and nothing else; ports of read-only or absent devices change nothing
+// @assume the port selects at most one built-in device (statement: "selects exactly one device"); when the extender also claims it only the extender side is asserted (statement: the extender "receives exactly the ports it claims")
+// @bound one port write per query; AY register effects are in c07_ay_ports (feature ay)
+// @stub ZXScreen::process_clocks -> no-op
+// @replay solver-only
+#[kani::proof]
+#[kani::unwind(10)]
+#[kani::stub(crate::zx::video::screen::ZXScreen::process_clocks, noop_screen_clocks)]
+fn c07_write_reaches_one_device_128k() {
+    write_decode_body(ZXMachine::Sinclair128K);
 }
 
 /// floating-bus helper: (line, 8T-cell) being fetched at frame time tau, or None-like flags
@@ -913,11 +934,10 @@ fn fetch_pos(m: ZXMachine, tau: isize) -> (bool, usize, usize) {
     (true, l as usize, (x / 8) as usize)
 }
 
-fn read_decode_body(with_tape: bool) {
+fn read_decode_body(m: ZXMachine, with_tape: bool) {
     let kemp: bool = kani::any();
     let mouse: bool = kani::any();
-    let (mut c, latch, t) = any_controller_at(kemp, mouse);
-    let m = c.machine;
+    let (mut c, latch, t) = controller_at_machine(m, kemp, mouse);
     let cfg = any_devices(&mut c);
     // tape deck: empty, or a loaded (stopped) tape with an arbitrary EAR level
     let ear: bool = kani::any();
@@ -974,7 +994,7 @@ fn read_decode_body(with_tape: bool) {
     kani::cover!(sel.kemp, "kempston read");
     kani::cover!(sel.mouse_y, "mouse Y read");
     kani::cover!(sel.ext && port & 1 == 0, "extender answers an even port it claims");
-    kani::cover!(sel.page && !sel.ext, "read from the paging port floats");
+    kani::cover!(m == ZXMachine::Sinclair48K || (sel.page && !sel.ext), "read from the paging port floats");
 }
 
 // @harness
@@ -982,7 +1002,7 @@ fn read_decode_body(with_tape: bool) {
 // @tier quick
 // @timeout 1200
 // @fn ZXController::read_io; ZXController::floating_bus_value; KempstonJoy::read; TapeImpl::current_bit; bitmap_line_addr; ZXMemory::read
-// @sym machine, latch, frame time, 16-bit port, device configuration as in c07_write_reaches_one_device, keyboard/extended/sinclair matrices (bits 5-7 set), one witness byte (position from a class of 5 display cells) in the normal screen bank, the shadow screen bank or a non-display bank
+// @sym 48K machine (literal), latch, frame time, 16-bit port, device configuration as in c07_write_reaches_one_device, keyboard/extended/sinclair matrices (bits 5-7 set), one witness byte (position from a class of 5 display cells) in the normal screen bank, the shadow screen bank or a non-display bank
 // @assert for every port selecting at most one device: extender ports return the extender's byte (read once); even ports return the AND of the half-rows selected by zero bits of A8-A15 over the three key sources, bit 6 = EAR, bits 5,7 = 1; Kempston port returns the joystick byte; mouse ports return buttons/X/Y; a port no device claims returns 0xFF when the whole cycle lies outside the picture fetch windows (+-4 T), otherwise 0xFF or a byte of display/attribute memory of the cells fetched during the cycle (+-4 T), taken from the bank the ULA is displaying (bank 7 while latch bit 3 is set) and from no other RAM; reads change no device state
 // @assume at most one device selected; AY ports are excluded in this build (no AY compiled in; see c07_ay_ports); (A8,A10)=(0,1) mouse-style addresses are excluded (statement names only the FADF/FBDF/FFDF forms); tape deck empty (EAR low)
 // @bound one port read per query
@@ -991,8 +1011,8 @@ fn read_decode_body(with_tape: bool) {
 #[kani::proof]
 #[kani::unwind(10)]
 #[kani::stub(crate::zx::video::screen::ZXScreen::process_clocks, noop_screen_clocks)]
-fn c07_read_comes_from_one_device() {
-    read_decode_body(false);
+fn c07_read_comes_from_one_device_48k() {
+    read_decode_body(ZXMachine::Sinclair48K, false);
 }
 
 // @harness
@@ -1000,7 +1020,25 @@ fn c07_read_comes_from_one_device() {
 // @tier quick
 // @timeout 1200
 // @fn ZXController::read_io; ZXController::floating_bus_value; KempstonJoy::read; TapeImpl::current_bit; bitmap_line_addr; ZXMemory::read
-// @sym machine, latch, frame time, 16-bit port, device configuration as in c07_write_reaches_one_device, keyboard/extended/sinclair matrices (bits 5-7 set), one witness byte (position from a class of 5 display cells) in the normal screen bank, the shadow screen bank or a non-display bank
+// @sym 128K machine (literal), latch, frame time, 16-bit port, device configuration as in c07_write_reaches_one_device, keyboard/extended/sinclair matrices (bits 5-7 set), one witness byte (position from a class of 5 display cells) in the normal screen bank, the shadow screen bank or a non-display bank
+// @assert for every port selecting at most one device: extender ports return the extender's byte (read once); even ports return the AND of the half-rows selected by zero bits of A8-A15 over the three key sources, bit 6 = EAR, bits 5,7 = 1; Kempston port returns the joystick byte; mouse ports return buttons/X/Y; a port no device claims returns 0xFF when the whole cycle lies outside the picture fetch windows (+-4 T), otherwise 0xFF or a byte of display/attribute memory of the cells fetched during the cycle (+-4 T), taken from the bank the ULA is displaying (bank 7 while latch bit 3 is set) and from no other RAM; reads change no device state
+// @assume at most one device selected; AY ports are excluded in this build (no AY compiled in; see c07_ay_ports); (A8,A10)=(0,1) mouse-style addresses are excluded (statement names only the FADF/FBDF/FFDF forms); tape deck empty (EAR low)
+// @bound one port read per query
+// @stub ZXScreen::process_clocks -> no-op
+// @replay solver-only
+#[kani::proof]
+#[kani::unwind(10)]
+#[kani::stub(crate::zx::video::screen::ZXScreen::process_clocks, noop_screen_clocks)]
+fn c07_read_comes_from_one_device_128k() {
+    read_decode_body(ZXMachine::Sinclair128K, false);
+}
+
+// @harness
+// @prop C07
+// @tier quick
+// @timeout 1200
+// @fn ZXController::read_io; ZXController::floating_bus_value; KempstonJoy::read; TapeImpl::current_bit; bitmap_line_addr; ZXMemory::read
+// @sym 48K machine (literal), latch, frame time, 16-bit port, device configuration as in c07_write_reaches_one_device, keyboard/extended/sinclair matrices (bits 5-7 set), one witness byte (position from a class of 5 display cells) in the normal screen bank, the shadow screen bank or a non-display bank
 // @assert for every port selecting at most one device: extender ports return the extender's byte (read once); even ports return the AND of the half-rows selected by zero bits of A8-A15 over the three key sources, bit 6 = EAR, bits 5,7 = 1; Kempston port returns the joystick byte; mouse ports return buttons/X/Y; a port no device claims returns 0xFF when the whole cycle lies outside the picture fetch windows (+-4 T), otherwise 0xFF or a byte of display/attribute memory of the cells fetched during the cycle (+-4 T), taken from the bank the ULA is displaying (bank 7 while latch bit 3 is set) and from no other RAM; reads change no device state
 // @assume at most one device selected; AY ports are excluded in this build (no AY compiled in; see c07_ay_ports); (A8,A10)=(0,1) mouse-style addresses are excluded (statement names only the FADF/FBDF/FFDF forms); a tape is loaded (stopped) with an arbitrary EAR level
 // @bound one port read per query
@@ -1010,7 +1048,7 @@ fn c07_read_comes_from_one_device() {
 #[kani::unwind(10)]
 #[kani::stub(crate::zx::video::screen::ZXScreen::process_clocks, noop_screen_clocks)]
 fn c07_read_with_tape_loaded() {
-    read_decode_body(true);
+    read_decode_body(ZXMachine::Sinclair48K, true);
 }
 
 
@@ -1148,8 +1186,8 @@ fn c07_floating_bus_48k() {
 
 // @harness
 // @prop C07
-// @tier quick
-// @timeout 1500
+// @tier thorough
+// @timeout 3000
 // @fn ZXController::read_io (unclaimed port); ZXController::floating_bus_value; bitmap_line_addr; ZXMemory::ram_page_data
 // @sym 128K with latch bit 3 clear (normal screen displayed); latch otherwise symbolic (any bank at 0xC000, lock, ROM), frame time, unclaimed odd port, one witness byte (cell from a class of 5 bitmap/attribute positions) in the normal screen bank, the shadow screen bank or a RAM bank that is never display memory
 // @assert a read from a port no device claims returns 0xFF when the whole cycle lies outside the picture fetch windows (+-4 T); otherwise 0xFF or a byte of the display file/attributes of the cells being fetched during the cycle (+-4 T), taken from the bank the ULA is displaying (bank 7 while latch bit 3 is set) and from no other RAM bank, whatever is paged at 0xC000
@@ -1165,8 +1203,8 @@ fn c07_floating_bus_normal_screen() {
 
 // @harness
 // @prop C07
-// @tier quick
-// @timeout 1500
+// @tier thorough
+// @timeout 3000
 // @fn ZXController::read_io (unclaimed port); ZXController::floating_bus_value; bitmap_line_addr; ZXMemory::ram_page_data
 // @sym 128K with latch bit 3 set (shadow screen displayed); latch otherwise symbolic (any bank at 0xC000, lock, ROM), frame time, unclaimed odd port, one witness byte (cell from a class of 5 bitmap/attribute positions) in the normal screen bank, the shadow screen bank or a RAM bank that is never display memory
 // @assert a read from a port no device claims returns 0xFF when the whole cycle lies outside the picture fetch windows (+-4 T); otherwise 0xFF or a byte of the display file/attributes of the cells being fetched during the cycle (+-4 T), taken from the bank the ULA is displaying (bank 7 while latch bit 3 is set) and from no other RAM bank, whatever is paged at 0xC000
